@@ -80,7 +80,8 @@ def explore(scenario, monitor_factory, bound=None, max_states=200000, max_depth=
                 en = w.enabled()
                 w.enabled_cache = en
                 if c >= len(en):
-                    raise HarnessError("replay diverged at depth %d: choice %d of %d (%s)" % (k, c, len(en), scenario.get("name")))
+                    raise HarnessError("replay diverged at depth %d: choice %d of %d (%s); choices %r; trace %r; enabled %r" % (
+                        k, c, len(en), scenario.get("name"), list(choices), w.trace, en))
                 w.step(en[c])
                 path.append(c)
             if choices:
